@@ -830,6 +830,21 @@ def compute_kek(
         # We can derive the shared secret based on the DH formula.
         # s = y**x mod p
         dh_pub_key = FFCDHKey.unpack(public_key)
+
+        # The peer's key must be a member of the group the root key was
+        # configured with; a key blob that brings its own parameters or one
+        # of the degenerate values 0, 1, p - 1 would make the shared secret
+        # predictable without knowing any private key.
+        dh_params = FFCDHParameters.unpack(secret_parameters or b"")
+        if (dh_pub_key.key_length, dh_pub_key.field_order, dh_pub_key.generator) != (
+            dh_params.key_length,
+            dh_params.field_order,
+            dh_params.generator,
+        ):
+            raise ValueError("DH public key does not use the parameters of the group key")
+        if not 1 < dh_pub_key.public_key < dh_pub_key.field_order - 1:
+            raise ValueError("DH public key is not a valid group element")
+
         shared_secret_int = pow(
             dh_pub_key.public_key,
             int.from_bytes(private_key, byteorder="big"),
